@@ -69,6 +69,44 @@ CLAIMED = {
             'subprocesses (single file, directory, recursive) are compared byte for byte with the API on generated documents; ekern -> kern -> ekern on the converter output.',
             'Partial by nature: file system, locale default encoding of open(), argparse and glob order are not modelled; they are exercised as they are in this sandbox.',
             'DESIGN.md §5 C20'),
+    'C01': ('Lean 4 proof at cell level (sorted-set canonicity via Perm.eq_of_pairwise over a proved total order on strings; idempotent normal form); document-level fixed point decided by correspondence chains',
+            'Theorems C01_canon / C01_canon_export (every note or rest of the abstract grammar: the exported cell depends only on duration, pitch, accidental/display and the SET of '
+            'signifiers - not on order, position or repetition), C01_export_is_render_canon (the exported text is again a cell of the grammar), C01_cell_fixed_point, canon_idem. '
+            'The document-level statements (loads(dumps(d)) has no errors and re-exports identically; the extended chain through get_kern_from_ekern) are decided on generated '
+            'documents of the full grammar by correspondence with the real code and the model, plus a corpus of all single/paired signifier placements.',
+            'Partial: the document-level fixed point is not a Lean theorem (it needs the ANTLR parser, a parameter here, to read render(canon e) as tokOf(canon e) - checked by '
+            'correspondence - and the C02 grid refinement). Trusted: Lean kernel, standard axioms, extract.py, harness, generator coverage.',
+            'DESIGN.md §5 C01'),
+    'C03': ('Lean 4 proof: export of the listener token of every abstract note/rest = duration marks + pitch + accidental + sorted set of signifiers (sorting uniqueness, strip/join lemmas); grid structure lemma; abstract-document oracle',
+            'Theorems C03_element / C03_single (every well-formed note or rest, any duration form, any signifiers in the four positions: kern text of the token the listener builds = '
+            'duration marks in grammar order, pitch letters, accidental+display, sorted set of its own signifiers), C03_other_verbatim, C03_barline (type and fermata kept, number lost), '
+            'C03_grid (one row per stage, one cell per node). Tied: tokOf vs the real parser on every generated cell; default export of generated documents vs the text computed '
+            'from the generator\'s own abstract description, and vs the model.',
+            'Trusted: Lean kernel, standard axioms, extract.py, harness. ANTLR parser = parameter (tokOf tie by correspondence). Chords are covered by the oracle and the model, the '
+            'Lean cell theorem is stated for single notes/rests. Open findings: F10 (separator characters in free text), F16 (hidden barlines) are outside the hypotheses.',
+            'DESIGN.md §5 C03'),
+    'C05': ('Lean 4 proof: sort/filter commutation for the sub-token lists (Perm.eq_of_pairwise with an antisymmetric key; stable sort of category-ordered lists), placeholder clauses of cellBody, selected set = C11; exhaustive singles/pairs on fixed documents',
+            'Theorems C05_note_text (filtered note = unfiltered sorted parts with exactly the unselected ones deleted, nothing altered or reordered), C05_decorations, C05_pitch_duration, '
+            'C05_placeholder / C05_placeholder_text (unselected non-note tokens, chords included, become * or .), C05_selected, C05_identity, C05_selected_set (= C11_valid), '
+            'C05_null_rows_dropped. Tied by every single category and every (include, exclude) pair of singles on a fixed document set, random larger sets on random documents, '
+            'against the abstract-grid oracle and the model.',
+            'Trusted: Lean kernel, standard axioms, extract.py, harness. What is printed when every part of a note is deleted (*) or only decorations remain (leading separator) is '
+            'part of model and oracle, as the statement leaves it open.',
+            'DESIGN.md §5 C05'),
+    'C06': ('Lean 4 proof by list induction: a stage row = cells of the nodes of selected spines (filter then mapM), projection of the full row by zip/filter, null-row absorption; every subset of ids/types by correspondence',
+            'Theorems C06_export_rows, C06_row_is_selected_cells (rowOfStage = filterMap id . mapM cellBody . filter selected, the cell text not depending on the selection), '
+            'C06_row_projection (with any selection the row is exactly the sub-list of the fully exported cells at the selected nodes: unchanged, in order), C06_null_rows_absorbed, '
+            'C06_selection_by_header. Tied by every subset of spine ids and of occurring types on generated documents with nested splits, against the projection computed on the '
+            'source grid (generator\'s live sub-spine tracking) and the model; spine_types query vs header line.',
+            'Trusted: Lean kernel, standard axioms, extract.py, harness. That header_node is the live spine of the source grid (C02) is established by correspondence.',
+            'DESIGN.md §5 C06'),
+    'C13': ('Lean 4 proof: export row = filterMap id . mapM (cellBody V X) . filter (selected S); select-then-view = view-then-select; explicit defaults by rfl and C11; product of options by correspondence incl. text-level compositions',
+            'Theorems C13_select_then_view, C13_view_then_select, C13_independent_arguments, C13_default_spine_types / _encoding / _exclude (rfl on the parse_options model), '
+            'C13_default_include (include=all selects the same set as None, via C11_valid). Tied on generated documents x random spine selections x include/exclude x six encodings '
+            'against the grid oracle and the model, plus text-level compositions on the implementation\'s own outputs (projection of the filtered export; stripping the extended export) '
+            'and 13 explicit-default variants.',
+            'Trusted: Lean kernel, standard axioms, extract.py, harness. The composition theorem is thin where the model is compositional by construction; the weight is on the tie.',
+            'DESIGN.md §5 C13'),
 }
 
 NOT_YET = {}
